@@ -80,6 +80,12 @@ func (vm *VotingMachine) CollectVote(vote hotstuff.VoteMsg) {
 		vm.logger.Info("block too old")
 		return
 	}
+	// a vote is one signature by its sender: a certificate naming several signers (or somebody else) would be
+	// stored under its first signer only and make the combination at the quorum fail on the overlap.
+	if sig := cert.Signature(); sig == nil || sig.Participants().Len() != 1 || !sig.Participants().Contains(vote.ID) {
+		vm.logger.Infof("vote from %d is not a single signature by its sender", vote.ID)
+		return
+	}
 	if vm.config.SyncVerification() {
 		vm.verifyCert(cert, block)
 	} else {
